@@ -609,6 +609,7 @@ def explore_c01(ctx, res, replay_ops=None):
     r = chf_run(ctx, res, n, replay_ops, also=[("events", 400, 3000)])
     prev = None
     last_reserved = {}
+    tariff = {}
     for i, (op, im, mo) in enumerate(zip(r.ops, r.impl, r.model)):
         t = op.split()
         kind = t[1]
@@ -617,7 +618,30 @@ def explore_c01(ctx, res, replay_ops=None):
         if kind == "reset":
             prev = None
             last_reserved = {}
+            tariff = {}
             continue
+        if kind == "acct":
+            try:
+                tariff[(t[2], int(t[3]))] = int(bytes.fromhex(t[5]).decode())
+            except Exception:
+                tariff.pop((t[2], int(t[3])), None)
+        if kind == "create" and im.startswith("st=201"):
+            # "after every completed create/update/release request": online usage a create reports (a one-time event reports all
+            # its usage there) is usage reported - the CHF records it and never rates it
+            rqc = _parse_req(t[2:])
+            owed = 0
+            for u in rqc["usages"]:
+                c = tariff.get((rqc["supi"], u["rg"]))
+                if c:
+                    owed += c * sum(x[1] for x in u["conts"] if x[0] == 1)
+            if owed > 0:
+                res.dist["create-reporting-online-usage"] += 1
+                kfc = ctx.kf_classes()
+                if "create-usage-not-charged" in kfc:
+                    res.kf["create-usage-not-charged"] = kfc["create-usage-not-charged"]
+                else:
+                    res.violation("oracle", "C01: a create reported online usage worth %d (unit cost x volume) that was recorded and answered 201 but never "
+                                  "rated or taken off the account" % owed, _chf_history(r.ops, i) + ["# impl: " + strip_annot(im)[:600]])
         if kind in ("acct", "end"):
             # account (re)definition: totals are re-based
             prev = None if kind == "end" else prev
